@@ -140,8 +140,11 @@ def run_case(case):
     viol = []
     nv = ni = 0
     kinds = {}
+    # the same dict object, rewritten in place for every candidate: a caller may well check, edit and re-check
+    fresh_verdicts = []
     for s, ok, kind in cands:
         res, err, out = O.quiet(sp.sample_mismatch_experiment, p.block, copy.deepcopy(s))
+        fresh_verdicts.append(None if err else bool(res))
         if ok:
             nv += 1
         else:
@@ -163,6 +166,21 @@ def run_case(case):
                              "; ".join(why[:2])[:300], O.seq_key(s)[:300])})
         if len(viol) >= 4:
             break
+    # second pass: ONE dict object (and the same list objects) rewritten in place for every candidate and checked
+    # consecutively — a caller may well check, edit and re-check; the verdicts must not depend on that history
+    if not viol:
+        probe = {k: list(v) for k, v in cands[0][0].items()}
+        for (s, ok, kind), fv in zip(cands, fresh_verdicts):
+            for k in probe:
+                probe[k][:] = s[k]
+            res_p, err_p, _ = O.quiet(sp.sample_mismatch_experiment, p.block, probe)
+            counters["in_place_rechecks"] = counters.get("in_place_rechecks", 0) + 1
+            if fv is not None and err_p is None and bool(res_p) != fv:
+                viol.append({"kind": "verdict_depends_on_history", "candidate_valid": ok,
+                             "msg": "the checker reports %s for these contents in a fresh dict but %s when they are written "
+                                    "into a dict it checked just before: %s" % ("a mismatch" if fv else "no mismatch",
+                                                                                json.dumps(res_p, default=str)[:120], O.seq_key(s)[:200])})
+                break
     counters["valid_candidates"] = nv
     counters["invalid_candidates"] = ni
     counters["designs_judged"] = 1
